@@ -1,3 +1,3 @@
 SPECIFICATION Spec
-INVARIANTS DriverClaim Inv LongInv
+INVARIANTS DriverClaim Inv LongInv RegenInv
 CHECK_DEADLOCK FALSE
